@@ -543,3 +543,254 @@ func aliasRestores(s appendSite, de effectSet) []string {
 	sort.Strings(out)
 	return out
 }
+
+// undoValueClass classifies where the value an undo-closure stores into a scalar state field comes from.
+//   const      a constant
+//   captured   a variable of the enclosing function captured by the closure (the saved original)
+//   inverse    the field's own current value adjusted by a constant or captured amount (x-- undoing x++)
+//   derived:F  computed at rollback time from the current value of another state field F
+//   other      anything else (calls, parameters)
+func undoValueClass(st *ssa.Store, field string) string {
+	v := st.Val
+	for {
+		if cv, ok := v.(*ssa.Convert); ok {
+			v = cv.X
+			continue
+		}
+		if cv, ok := v.(*ssa.ChangeType); ok {
+			v = cv.X
+			continue
+		}
+		break
+	}
+	if _, ok := v.(*ssa.Const); ok {
+		return "const"
+	}
+	isCapturedLoad := func(x ssa.Value) bool {
+		ld, ok := x.(*ssa.UnOp)
+		if !ok || ld.Op != token.MUL {
+			return false
+		}
+		_, ok = ld.X.(*ssa.FreeVar)
+		return ok
+	}
+	if isCapturedLoad(v) {
+		return "captured"
+	}
+	loadField := func(x ssa.Value) string {
+		ld, ok := x.(*ssa.UnOp)
+		if !ok || ld.Op != token.MUL {
+			return ""
+		}
+		if fa, ok := ld.X.(*ssa.FieldAddr); ok && !isLocalRoot(ld.X) {
+			return ownerField(fa)
+		}
+		return ""
+	}
+	if b, ok := v.(*ssa.BinOp); ok && (b.Op == token.ADD || b.Op == token.SUB) && loadField(b.X) == field {
+		if _, isK := b.Y.(*ssa.Const); isK || isCapturedLoad(b.Y) {
+			return "inverse"
+		}
+	}
+	// any state field read in the value's computation inside the closure
+	derived := ""
+	ssau.DependsOn(v, func(x ssa.Value) bool {
+		if f := loadField(x); f != "" && derived == "" {
+			derived = f
+		}
+		return false
+	})
+	if derived != "" {
+		return "derived:" + derived
+	}
+	return "other"
+}
+
+// selfAdjust: the store writes field's own current value adjusted by +/- an amount; returns the operator and a
+// printable form of the amount.
+func selfAdjust(st *ssa.Store, field string) (token.Token, string, bool) {
+	v := st.Val
+	b, ok := v.(*ssa.BinOp)
+	if !ok || (b.Op != token.ADD && b.Op != token.SUB) {
+		return 0, "", false
+	}
+	ld, ok := b.X.(*ssa.UnOp)
+	if !ok || ld.Op != token.MUL {
+		return 0, "", false
+	}
+	fa, ok := ld.X.(*ssa.FieldAddr)
+	if !ok || ownerField(fa) != field {
+		return 0, "", false
+	}
+	return b.Op, ssau.CondString(b.Y), true
+}
+
+// uValues decides the values written back by undo closures into scalar state fields.
+func (c *Ctx) uValues(rule, rel string, floor int) {
+	n := 0
+	for _, s := range c.appendSites(rel) {
+		if s.undo == nil || s.do == nil {
+			continue
+		}
+		for _, b := range s.undo.Blocks {
+			for _, in := range b.Instrs {
+				st, ok := in.(*ssa.Store)
+				if !ok {
+					continue
+				}
+				fa, ok := st.Addr.(*ssa.FieldAddr)
+				if !ok || isLocalRoot(st.Addr) {
+					continue
+				}
+				if _, basic := st.Val.Type().Underlying().(*types.Basic); !basic {
+					continue
+				}
+				field := ownerField(fa)
+				n++
+				if op, amt, ok := selfAdjust(st, field); ok {
+					// the do-closure (following same-package callees) adjusts the same field the other way by the same amount
+					var opp, same []string
+					for _, dst := range storesDeep(s.do, 2) {
+						if dfa, ok := dst.Addr.(*ssa.FieldAddr); ok && ownerField(dfa) == field {
+							if dop, damt, ok := selfAdjust(dst, field); ok {
+								if dop != op {
+									opp = append(opp, damt)
+								} else {
+									same = append(same, damt)
+								}
+							}
+						}
+					}
+					key := fmt.Sprintf("%s|%s|undo %s= %s", fname(s.fn), field, op, amt)
+					switch {
+					case len(opp) > 0:
+						okAmt := false
+						for _, a := range opp {
+							if a == amt {
+								okAmt = true
+							}
+						}
+						c.R.Check(rule, key, okAmt, c.posOf(st), fmt.Sprintf("the rollback adjusts %s by %s %s but the change adjusts it the other way by %v: the amounts differ", field, op, amt, opp))
+					case len(same) > 0:
+						c.R.Check(rule, key, false, c.posOf(st), fmt.Sprintf("the rollback adjusts %s in the same direction (%s) as the change it is meant to undo", field, op))
+					default:
+						c.R.Info(rule, key, c.posOf(st), "the change does not adjust the field in place (assigned through another form); pairing decided by U-effects only")
+					}
+					continue
+				}
+				cl := undoValueClass(st, field)
+				key := fname(s.fn) + "|" + field + "|restored from " + cl
+				if strings.HasPrefix(cl, "derived:") {
+					c.R.Check(rule, key, false, c.posOf(st), fmt.Sprintf("the rollback writes into %s a value computed at rollback time from the current value of %s; it equals the value before the change only if a relation between the two fields holds at every rollback, which nothing establishes (restore the saved original, or invert the change on the field itself)", field, strings.TrimPrefix(cl, "derived:")))
+				} else {
+					c.R.Check(rule, key, true, c.posOf(st), "saved original / constant")
+				}
+			}
+		}
+	}
+	// a change that may leave a field untouched needs a rollback that may too: when some path through the
+	// do-closure performs no write to field F while every path through the undo-closure overwrites F with a
+	// constant or adjusts it in place, rolling back the no-op case changes F (a restore of the saved original
+	// is harmless there and exempt)
+	for _, s := range c.appendSites(rel) {
+		if s.undo == nil || s.do == nil {
+			continue
+		}
+		byField := map[string][]ssa.Instruction{}
+		exempt := map[string]bool{}
+		for _, b := range s.undo.Blocks {
+			for _, in := range b.Instrs {
+				st, ok := in.(*ssa.Store)
+				if !ok {
+					continue
+				}
+				fa, ok := st.Addr.(*ssa.FieldAddr)
+				if !ok || isLocalRoot(st.Addr) {
+					continue
+				}
+				if _, basic := st.Val.Type().Underlying().(*types.Basic); !basic {
+					continue
+				}
+				field := ownerField(fa)
+				byField[field] = append(byField[field], st)
+				if _, _, adj := selfAdjust(st, field); !adj && undoValueClass(st, field) != "const" {
+					exempt[field] = true
+				}
+			}
+		}
+		var fields []string
+		for f := range byField {
+			fields = append(fields, f)
+		}
+		sort.Strings(fields)
+		for _, field := range fields {
+			if exempt[field] {
+				continue
+			}
+			var doStores []ssa.Instruction
+			for _, b := range s.do.Blocks {
+				for _, in := range b.Instrs {
+					if st, ok := in.(*ssa.Store); ok {
+						if fa, ok := st.Addr.(*ssa.FieldAddr); ok && ownerField(fa) == field {
+							doStores = append(doStores, st)
+						}
+					}
+				}
+			}
+			if len(doStores) == 0 {
+				continue // written through a callee or another form: U-effects decides the pairing
+			}
+			if avoidableStores(s.do, doStores) && !avoidableStores(s.undo, byField[field]) {
+				c.R.Check(rule, fname(s.fn)+"|"+field+"|conditional change, unconditional rollback", false, c.posOf(byField[field][0]),
+					fmt.Sprintf("the change writes %s only on some paths of its closure (the decision is taken when the change is committed) while its rollback always overwrites it: rolling back a block for which the change did nothing alters %s", field, field))
+			} else {
+				c.R.Check(rule, fname(s.fn)+"|"+field+"|change and rollback agree on whether the field is written", true, c.posOf(byField[field][0]), "")
+			}
+		}
+	}
+	c.R.FloorCheck(rule+" undo stores in "+rel, n, floor)
+}
+
+// storesDeep lists the stores of fn and of the same-package functions it calls statically, to the given depth.
+func storesDeep(fn *ssa.Function, depth int) []*ssa.Store {
+	var out []*ssa.Store
+	seen := map[*ssa.Function]bool{}
+	var walk func(f *ssa.Function, d int)
+	walk = func(f *ssa.Function, d int) {
+		if f == nil || seen[f] || len(f.Blocks) == 0 {
+			return
+		}
+		seen[f] = true
+		for _, b := range f.Blocks {
+			for _, in := range b.Instrs {
+				switch x := in.(type) {
+				case *ssa.Store:
+					out = append(out, x)
+				case ssa.CallInstruction:
+					if d > 0 {
+						if cal := x.Common().StaticCallee(); cal != nil && cal.Pkg == fn.Pkg {
+							walk(cal, d-1)
+						}
+					}
+				}
+			}
+		}
+	}
+	walk(fn, depth)
+	return out
+}
+
+// avoidableStores: some path from fn's entry to a return executes none of the given instructions.
+func avoidableStores(fn *ssa.Function, ins []ssa.Instruction) bool {
+	cut := ssau.NewCut()
+	for _, in := range ins {
+		cut.AddInstr(in)
+	}
+	r := ssau.ReachFromEntry(fn, cut)
+	for _, ret := range ssau.Returns(fn) {
+		if r.Instr(ret) {
+			return true
+		}
+	}
+	return false
+}
